@@ -138,7 +138,8 @@ def gen_rust():
             o.append("#[derive(Subcommand, Debug, Clone, PartialEq)]\npub enum %sCmd {\n" % t["type"])
             for v in t["subs"]["variants"]:
                 if v.get("nested"):
-                    o.append("    #[command(subcommand)]\n    %s(%s),\n" % (v["rust"], v["nested"]["rust"]))
+                    # (boxed: the blanket `impl Subcommand for Box<T>` forwards every method, update mode included)
+                    o.append("    #[command(subcommand)]\n    %s(Box<%s>),\n" % (v["rust"], v["nested"]["rust"]))
                     continue
                 if v["aliases"]:
                     o.append("    #[command(%s)]\n" % ", ".join('alias = "%s"' % a for a in v["aliases"]))
@@ -176,7 +177,7 @@ def gen_rust():
                     pat_full = "%sCmd::%s(inner)" % (t["type"], v["rust"])
                     if opt:
                         pat_full = "Some(%s)" % pat_full
-                    o.append("            %s => {\n                cmd = bs(\"%s\");\n                match inner {\n" % (pat_full, v["name"]))
+                    o.append("            %s => {\n                cmd = bs(\"%s\");\n                match inner.as_ref() {\n" % (pat_full, v["name"]))
                     for nv in v["nested"]["variants"]:
                         binds = ", ".join(f["name"] for f in nv["fields"])
                         npat = "%s::%s" % (v["nested"]["rust"], nv["rust"])
